@@ -1279,7 +1279,11 @@ pub fn group_files(config: &GroupConfig, log: &dyn Log) -> Result<Vec<FileGroup<
             if !ctx.config.skip_content_hash {
                 group_by_contents(&ctx, prefix_len, suffix_groups)
             } else {
-                suffix_groups
+                // the contents stage, which is skipped, applies the replication filter strictly:
+                // with --rf-under / --unique the earlier stages let every group pass
+                let mut groups = suffix_groups;
+                groups.retain(|g| g.matches_strictly(&ctx.group_filter));
+                groups
             }
         }
     };
